@@ -81,8 +81,33 @@ def sig_c13_participant_reexecuted(job, ops):
     return False
 
 
+def sig_c13_leaves_cycle(job, ops):
+    """F4: a cycle_result function that returned its fallback as a member of a cycle in its previous execution
+    is re-executed in a later revision in which it no longer lies on any cycle (WillExecute + body end, no
+    cycle_result call, not on a call-graph cycle under the current inputs) and produces a different value, but
+    functions that depend on it are validated as unchanged and keep the value computed from the old fallback."""
+    prog = job["prog"]
+    kinds = {f"f{j + 1}": f["kind"] for j, f in enumerate(prog["fns"])}
+    inputs = [[f[0] for f in inp] for inp in prog["inputs"]]
+    was_member = set()
+    for op in ops:
+        o = op[0]
+        if o.get("op") == "set":
+            if any(e.get("e") == "ret" and e.get("ok") == 1 for e in op):
+                inputs[o["i"] - 1][o["f"] - 1] = o["v"]
+            continue
+        cres = {e["k"] for e in op if e.get("e") == "cres"}
+        we = [e["k"] for e in op if e.get("e") == "we" and kinds.get(e.get("k")) == "fb"]
+        for k in we:
+            if k in was_member and k not in cres and not on_cycle(prog, inputs, int(k[1:])):
+                return True
+        was_member |= cres
+    return False
+
+
 SIGNATURES = {
-    "C13": [("fb-cycle-member-executed-without-cycle-detection", sig_c13_participant_reexecuted)],
+    "C13": [("fb-cycle-member-executed-without-cycle-detection", sig_c13_participant_reexecuted),
+            ("fb-function-leaves-cycle-dependents-validated", sig_c13_leaves_cycle)],
 }
 
 
